@@ -4,6 +4,7 @@ import RTA.Lemmas.BwSound
 import RTA.Lemmas.ExecRefine
 import RTA.Lemmas.ExecRunMeets
 import RTA.Lemmas.ExecEndToEnd
+import RTA.Lemmas.ExecEndToEndExample
 import RTA.Spec.Ros2Exec
 /-! # C05 — the RTSS'21 round-robin-aware (rr) and busy-window-aware (bw) analyses are safe
 
@@ -268,6 +269,19 @@ theorem bw_safe_end_to_end (cbs : List Exec.Cb) (sigma : Nat → Bool) (rels : N
     ∀ o ∈ Exec.run cbs (fun _ => none) ((List.range n).map sigma) rels, o.1 = i →
       o.2.2 ≤ o.2.1 + (wl.getD i default).rtb :=
   Exec.bw_exec_sound cbs sigma rels H hidx hfin hcb sup hs hsbf wl hlen hscalar hwf hkinds hprio hrel limit dbg hself n i
+
+/-- non-vacuity of `rr_safe_end_to_end`: a concrete callback table (a timer and two polled
+callbacks), a dedicated processor and strictly periodic releases satisfy EVERY hypothesis with
+the self-reproducing bound vector (9, 9, 9), and `Exec.run` reports completions — all of them
+within the bounds -/
+theorem rr_safe_end_to_end_nonvacuous :
+    (∀ i, i < Exec.exWl.length →
+      ∃ R, rrSubchain .dedicated Exec.exWl [i] 100 = .ok R ∧ R ≤ (Exec.exWl.getD i default).rtb) ∧
+    8 ≤ (Exec.run Exec.exCbs (fun _ => none) ((List.range 60).map Exec.exSigmaAll) Exec.exRels).length ∧
+    ∀ o ∈ Exec.run Exec.exCbs (fun _ => none) ((List.range 60).map Exec.exSigmaAll) Exec.exRels,
+      o.2.2 ≤ o.2.1 + (Exec.exWl.getD o.1 default).rtb :=
+  ⟨Exec.rr_exec_sound_nonvacuous.2.2.2.2.2.2.2.2.2.2.2.1, Exec.rr_exec_sound_nonvacuous.2.2.2.2.2.2.2.2.2.2.2.2,
+    Exec.rr_example_bounded⟩
 
 /-- analysis side: rr = naive linear-scan evaluation -/
 theorem rr_is_naive (s : Supply) (hs : s.WF) (wl : List Callback) (sub : List Nat) (limit : Nat)
